@@ -62,6 +62,7 @@ Fixpoint show_js (s : js) : string :=
               | KwDependencies l => "dependencies:" ++ show_dr l
               | KwRef _ n => "$ref:" ++ n
               | KwNullable => "nullable:true"
+              | KwAnnot n => n ++ ":..."
               end) :: all r
          end) kws) ++ "}"
   end.
